@@ -203,6 +203,56 @@ def check_unlink(run, db):
     return n
 
 
+def check_cursor_reset(run, db, rule='R-UNLINK'):
+    """constructors, move constructor and swap of the ordered list leave the cached deallocation cursor as an ADJACENT pair: (begin
+    proxy, first node) read after the links are final, or (begin proxy, end proxy) only on a path that links the list empty; find_pos
+    walks from this pair and takes a non-adjacent pair for a position"""
+    n = 0
+    for f in db.fns.values():
+        if f.pattern:
+            continue
+        is_member = cls_template(f.cls) == LISTS[1] and f.kind in ('ctor', 'move-ctor')
+        is_swap = f.short == 'swap' and len(f.params) == 2 and 'ordered_free_memory_list' in f.params[0]['t'] and not f.cls
+        if not (is_member or is_swap):
+            continue
+        roles = {0: 'a', 1: 'b'} if is_swap else {0: 'other'}
+        objs = ['$a', '$b'] if is_swap else ['this']
+        probs = []
+        any_write = False
+        for s in fwd.summarize(f, db=db, roles=roles, no_forward=True):
+            if s.end != 'return':
+                continue
+            for O in objs:
+                pw = [w for w in s.writes if w[0] == O + '.last_dealloc_prev_']
+                cw = [w for w in s.writes if w[0] == O + '.last_dealloc_']
+                if not pw and not cw:
+                    continue
+                any_write = True
+                if not pw or not cw:
+                    probs.append('only one half of %s\'s cursor pair is set' % O)
+                    continue
+                pv, cv = pw[-1][1], cw[-1][1]
+                links = [(i, c[0]) for i, c in enumerate(s.calls) if c[0].startswith('xor_list_set(%s.begin_node(),' % O)]
+                last_link = links[-1] if links else None
+                if pv != O + '.begin_node()':
+                    probs.append('%s.last_dealloc_prev_ becomes %s' % (O, pv[:50]))
+                elif cv == 'xor_list_get_other(%s.begin_node(),null)' % O:
+                    if last_link is not None and cw[-1][4] <= last_link[0]:
+                        probs.append('%s.last_dealloc_ is read from the begin proxy before the proxy is relinked' % O)
+                elif cv == O + '.end_node()':
+                    if last_link is None or last_link[1] != 'xor_list_set(%s.begin_node(),null,%s.end_node())' % (O, O):
+                        probs.append('%s\'s cursor pair is set to (begin proxy, end proxy) on a path that takes over a non-empty list: the two are not neighbours, '
+                                     'the next deallocation in the middle searches from a bogus position' % O)
+                else:
+                    probs.append('%s.last_dealloc_ becomes %s, which is not known to follow the begin proxy' % (O, cv[:50]))
+        if not any_write:
+            continue
+        n += 1
+        _emit(run, rule, f, db, probs, {'function': '%s::%s' % (LISTS[1], 'swap' if is_swap else f.kind), 'role': 'cursor pair adjacent'},
+              'cursor pair = (begin proxy, first node) after relinking / (begin, end) on the empty list', role='cursor pair adjacent')
+    return n
+
+
 def _top_args(body):
     out, depth, cur = [], 0, ''
     for ch in body:
